@@ -124,6 +124,8 @@ def variant_cases(ck: core.Check, results: list[dict]) -> list[dict]:
     out = []
     pool = [r for r in results if "ap" in r and any(n["s"] for n in r["ap"]["nodes"])]
     rng.shuffle(pool)
+    for name, q in G.handmade_aps():
+        out.append({"kind": "ap", "ap": q, "family": "handmade:" + name})
     for r in pool[: ck.pick(160, 1500)]:
         for name, q in G.ap_variants(r["ap"], rng):
             out.append({"kind": "ap", "ap": q, "family": "variant:" + name})
@@ -224,8 +226,9 @@ def run(ck: core.Check):
                         ck.broken(
                             "correspondence",
                             f"Builder model vs real Builder: {which}",
-                            json.dumps({"ap": L.ap_for_model(ap), "real": real if not real["ok"] else {which: real[which]},
-                                        "model": mv if not mv["ok"] else {which: mv.get(which)}})[:1400],
+                            json.dumps({"ap": L.ap_for_model(ap),
+                                        "real": {"ok": real["ok"], "err": real.get("err")} if which == "error-class" else {which: real[which]},
+                                        "model": {"ok": mv["ok"], "err": mv.get("err")} if which == "error-class" else {which: mv.get(which)}})[:1400],
                         )
                 elif real["ok"] and bool(m["struct_ok"]) != (r["model_err"] is None):
                     mism += 1
